@@ -53,6 +53,9 @@ HAVOC = False
 HAVOC_KEEP = {"emu", "emu_ev", "ovni_ev_payload"}
 HAVOC_EVENT_PTRS = {"struct emu *", "struct emu_ev *", "union ovni_ev_payload *"}
 SAFE_INB = "(cin %s)"
+# the ONE loop form: `MACRO(p->head, el, next) body` over an intrusive list, body = assignments to locals / ++ / if,
+# no break/continue/return/call/store; rendered as a fold_left over (list_<struct>_<head>_<next> sx st p)
+LOOP_MACROS = {"DL_FOREACH2"}
 # by-value struct types -> Gallina type
 STRUCTS = {}
 # value primitives whose pointer arguments are only read: `f(&x, p)` is translated as f(value of x, value at p)
@@ -64,6 +67,16 @@ PRIM_PROC = set()
 # int-status primitives with one output parameter: name -> index of the `&local` argument; `if (f(a, &x) != 0) {fail}`
 # becomes `bind (f a) (fun x => ...)`
 OUT_ACTION = {}
+# int-status functions of the unit with one integer out parameter: {function: parameter}.  Rendered as M Z: the
+# parameter disappears, `*p = e` binds the cell, `return 0` returns it (the cell must have been written).
+OUT_FUNCS = {}
+# footprint mode: C pointer types that designate a position inside the event payload (Gallina type pptr = byte offset).
+# Such a pointer is only produced by &emu->ev->payload->a.b[i], p += n and casts between these types; it is only
+# consumed by memcpy(&local, p, sizeof local), memchr(p, c, n) ==/!= NULL and as an argument of an untranslated callee
+# (then the payload must hold a NUL at or after p: the callee may read the C string there, nothing else).
+PAYLOAD_PTRS = set()
+# {name: C expression}: offsetof() constants asked to the compiler
+EXTRA_CONSTS = {}
 GALLINA_KEYWORDS = {"ret", "bind", "bind_", "fail", "eval", "ite", "need", "exec", "status", "cand", "cnn", "cin","end", "in", "at", "as", "fun", "let", "match", "with", "if", "then", "else", "return", "type",
                     "Type", "Set", "Prop", "forall", "exists", "fix", "cofix", "struct", "where", "for", "using",
                     "sx", "st"}
@@ -71,6 +84,15 @@ GALLINA_KEYWORDS = {"ret", "bind", "bind_", "fail", "eval", "ite", "need", "exec
 
 def _strip(n):
     while n.get("kind") in ("ImplicitCastExpr", "ParenExpr") and n.get("castKind") in (None, "LValueToRValue", "NoOp", "FunctionToPointerDecay", "ArrayToPointerDecay"):
+        n = n["inner"][0]
+    return n
+
+
+def _strip_casts(n):
+    """through parentheses and pointer conversions (to void * / const): the expression that yields the pointer"""
+    while n.get("kind") in ("ImplicitCastExpr", "ParenExpr", "CStyleCastExpr") and n.get("castKind") in (None, "LValueToRValue", "NoOp", "BitCast"):
+        if n.get("castKind") == "LValueToRValue":
+            break
         n = n["inner"][0]
     return n
 
@@ -129,8 +151,9 @@ class Val:
     """a translated expression: Gallina term, its safety condition (None = no dereference of a nullable
     pointer), whether it depends on the state (mentions sx/st)"""
 
-    def __init__(self, t, safe=None, dep=False):
+    def __init__(self, t, safe=None, dep=False, pp=False):
         self.t, self.safe, self.dep = t, safe, dep
+        self.pp = pp     # the value is a position inside the event payload (footprint mode)
 
 
 def s_and(a, b):
@@ -174,6 +197,8 @@ class GT:
     # ------------------------------------------------------------ types
     def gtype(self, node):
         q = _qt(node)
+        if _norm_ptr(q) in PAYLOAD_PTRS:
+            return "pptr"
         if _norm_ptr(q) in PTR:
             return PTR[_norm_ptr(q)][0]
         if q.strip().endswith("*") and HAVOC:
@@ -208,6 +233,55 @@ class GT:
         return PTR[p][1]
 
     # ------------------------------------------------------------ expressions
+    def is_pptr(self, n):
+        return bool(PAYLOAD_PTRS) and _norm_ptr(_qt(n)) in PAYLOAD_PTRS
+
+    def pointee_size(self, n):
+        q = _norm_ptr(_qt(n))[:-1].strip()
+        t = self.cg.INT_TYPES.get(q)
+        if t is None:
+            self.bad(n, "payload pointer to " + q)
+        return int(re.sub(r"\D", "", t)) // 8
+
+    def e_val_pp(self, n, env):
+        """does this pointer expression (a local, possibly cast) hold a position inside the payload"""
+        c = _strip_casts(n)
+        if c.get("kind") == "ImplicitCastExpr" and c.get("castKind") == "LValueToRValue":
+            c = c["inner"][0]
+        if c.get("kind") == "DeclRefExpr" and c["referencedDecl"]["name"] in env:
+            return bool(env[c["referencedDecl"]["name"]].get("pp"))
+        return False
+
+    def emu_var(self, n, env):
+        """the variable of type struct emu * of the current function: the event the payload pointers point into"""
+        c = [v for k2, v in env.items() if _norm_ptr(v.get("cty", "")) == "struct emu *" and v.get("init")]
+        if len(c) != 1:
+            self.bad(n, "payload pointer in a function without exactly one struct emu * variable")
+        return c[0]["g"]
+
+    def payload_addr(self, n, a, env):
+        """&emu->ev->payload->x.y[i]: the byte offset offsetof(union ovni_ev_payload, x.y) + i * sizeof(element);
+        no memory access, but the payload pointer itself is read (NULL check)"""
+        m = _strip(a)
+        if m.get("kind") != "ArraySubscriptExpr":
+            self.bad(n, "address inside the payload that is not &...payload->f[i]")
+        base, idx = m["inner"]
+        root, chain = self.chain_of(_strip(base))
+        k = [i for i, c in enumerate(chain) if c[0] == "payload"]
+        if root.get("kind") != "DeclRefExpr" or not k or any(c[2] for c in chain[k[0] + 2:]) or not chain[k[0] + 1][2]:
+            self.bad(n, "address inside the payload that is not &emu->ev->payload->f.g[i]")
+        path = [c[0] for c in chain[k[0] + 1:]]
+        pre = self.member(_strip(chain[k[0] + 1][1]), env)      # ... ->payload : its own NULL checks
+        i = self.e_val(idx, env)
+        if self.ity(m) is None:
+            self.bad(n, "payload array of " + _qt(m))
+        esz = int(re.sub(r"\D", "", self.ity(m))) // 8
+        cname = "off_" + "_".join(path)
+        EXTRA_CONSTS["c_" + cname] = "__builtin_offsetof(union ovni_ev_payload, %s)" % ".".join(path)
+        self.consts_extra = getattr(self, "consts_extra", set()) | {"c_" + cname}
+        safe = s_and(s_and(pre.safe, SAFE_NN % pre.t), i.safe)
+        return Val("(Z.add c_%s (Z.mul (%d) %s))" % (cname, esz, i.t), safe, True, pp=True)
+
     def var(self, n, env):
         rd = n["referencedDecl"]
         name = rd["name"]
@@ -232,8 +306,18 @@ class GT:
                 return Val("None")
             if ck in ("LValueToRValue", "NoOp", "ArrayToPointerDecay"):
                 return self.e_val(inner, env)
+            if self.is_pptr(n) != self.is_pptr(inner) and (self.is_pptr(n) or self.is_pptr(inner)) and ck in ("BitCast", "NoOp"):
+                self.bad(n, "conversion between a payload pointer and %s" % _qt(inner if self.is_pptr(n) else n))
+            if ck in ("BitCast", "NoOp") and self.is_pptr(n) and self.is_pptr(inner):
+                if self.pointee_size(n) != self.pointee_size(inner):
+                    self.bad(n, "payload pointer cast that changes the element size")
+                return self.e_val(inner, env)
             if ck == "BitCast" and HAVOC and _qt(n).strip().endswith("*"):
                 return self.e_val(inner, env)      # pointer conversion of an opaque pointer
+            if ck == "BitCast" and _norm_ptr(_qt(inner)) == "void *" and "void *" in PTR and _norm_ptr(_qt(n)) in PTR:
+                # (T *) of a void * that a primitive returned: a typed view of the handle, defined by the prelude
+                a = self.e_val(inner, env)
+                return Val("(cast_%s_%s %s)" % (PTR["void *"][0], PTR[_norm_ptr(_qt(n))][0], a.t), a.safe, a.dep)
             if ck == "IntegralCast":
                 src, dst = self.ity(inner), self.ity(n)
                 if dst is None or src is None:
@@ -247,13 +331,21 @@ class GT:
                 b = self.e_bool(inner, env)
                 return Val("(b2z %s)" % b.t, b.safe, b.dep)
             self.bad(n, "castKind %s" % ck)
+        if k == "UnaryExprOrTypeTraitExpr" and n.get("name") == "sizeof":
+            # sizeof of an integer object or type: the operand is not evaluated
+            arg = (n.get("inner") or [None])[0]
+            t = self.ity(arg) if arg is not None else self.cg.INT_TYPES.get(re.sub(r"\bconst\b", "", n.get("argType", {}).get("qualType", "")).strip())
+            if t is None or (arg is not None and _qt(arg).strip().endswith("]")):
+                self.bad(n, "sizeof of something that is not an integer")
+            return Val("(%d)" % (int(re.sub(r"\D", "", t)) // 8))
         if k == "DeclRefExpr":
             rd = n["referencedDecl"]
             if rd["kind"] == "EnumConstantDecl":
                 self.consts[rd["name"]] = None
                 return Val("c_%s" % rd["name"])
             if rd["kind"] in ("ParmVarDecl", "VarDecl"):
-                return Val(self.var(n, env)["g"])
+                ve = self.var(n, env)
+                return Val(ve["g"], pp=bool(ve.get("pp")))
             self.bad(n, "reference to a %s" % rd["kind"])
         if k == "MemberExpr":
             return self.member(n, env)
@@ -325,8 +417,9 @@ class GT:
             if name == "__builtin_expect":
                 return self.e_val(n["inner"][1], env)
             if HAVOC and self.kinds.get(name) is None and name not in PRIM_VALUE:
-                self.opaque_args(n)
-                return self.opaque_val(n)
+                osafe = self.opaque_args(n, env)
+                o = self.opaque_val(n)
+                return Val(o.t, s_and(osafe, o.safe), True)
             if name in BYREF_READ:
                 args = [self.byref(a, env) for a in n["inner"][1:]]
             else:
@@ -343,8 +436,9 @@ class GT:
                 call_safe = "(%s_safe sx st %s)" % (name, " ".join(a.t for a in args))
                 return Val("(%s sx st %s)" % (name, " ".join(a.t for a in args)), s_and(safe, call_safe), True)
             if HAVOC and self.kinds.get(name) is None:
-                self.opaque_args(n)
-                return self.opaque_val(n)
+                osafe = self.opaque_args(n, env)
+                o = self.opaque_val(n)
+                return Val(o.t, s_and(osafe, o.safe), True)
             self.bad(n, "call of %s inside an expression (not a value function or value primitive)" % name)
         if k == "ConditionalOperator":
             c, a, b = n["inner"]
@@ -434,17 +528,26 @@ class GT:
         walk(cond)
         return seen["size"] and not seen["other"]
 
-    def opaque_args(self, n):
+    def opaque_args(self, n, env=None):
         """arguments of an untranslated callee: they must not read the payload, and the event may only be passed to a
-        function of this TU that is checked not to read it"""
+        function of this TU that is checked not to read it.  A payload pointer may be passed: the callee may then read
+        the C string that starts there, so a NUL must follow inside the payload (returned as a safety condition)."""
         name = _callee(n)
+        safe = None
         for a in n["inner"][1:]:
+            if env is not None and self.is_pptr(_strip_casts(a)) and self.e_val_pp(_strip_casts(a), env):
+                if env is None:
+                    self.bad(n, "payload pointer passed to the untranslated callee %s here" % name)
+                pv = self.e_val(_strip_casts(a), env)
+                safe = s_and(safe, s_and(pv.safe, SAFE_INB % ("(cstr_ok sx st %s %s)" % (self.emu_var(n, env), pv.t))))
+                continue
             if self.mentions_payload(a):
                 self.bad(n, "argument of the untranslated callee %s reads the payload (bind it to a local first)" % name)
             if _norm_ptr(_qt(a)) in HAVOC_EVENT_PTRS:
                 if name is None:
                     self.bad(n, "the event is passed to an indirect call")
                 self.payload_free(name)
+        return safe
 
     def chain_of(self, n):
         """member chain p->a.b->c ... : (root node, [(field, base node, is_arrow)]) with anonymous members dropped"""
@@ -483,6 +586,8 @@ class GT:
     def address_of(self, n, a, env):
         if HAVOC:
             if self.mentions_payload(a):
+                if self.is_pptr(n):
+                    return self.payload_addr(n, a, env)
                 self.bad(n, "address of something inside the payload")
             return self.opaque_val(n)
         return self.address_of0(n, a, env)
@@ -492,10 +597,30 @@ class GT:
         m = _strip(a)
         self.gtype(n)
         if m.get("kind") == "MemberExpr":
+            root, chain = self.chain_of(m)
+            last = max([i for i, c in enumerate(chain) if c[2]] or [0])
+            if last > 0 and root.get("kind") == "DeclRefExpr":
+                # &p->q->a.b: the pointer p->q is read (with its NULL checks), then a handle into what it designates
+                basen = chain[last][1]
+                st = _struct_of(_qt(basen))
+                if st is None:
+                    self.bad(n, "address through " + _qt(basen))
+                b = self.e_val(basen, env)
+                hs = _struct_of(_qt(chain[last - 1][1]))
+                safe = b.safe
+                if self.nullable(basen) and (hs, chain[last - 1][0]) not in NONNULL_LINK:
+                    safe = s_and(safe, SAFE_NN % b.t)
+                return Val("(addr_%s_%s %s)" % (st, "_".join(c[0] for c in chain[last:]), b.t), safe, True)
             v, st, fields, safe = self.own_fields(m, env)
             return Val("(addr_%s_%s %s)" % (st, "_".join(fields), v["g"]), safe, False)
         if m.get("kind") == "ArraySubscriptExpr":
             base, idx = m["inner"]
+            bs = _strip(base)
+            if bs.get("kind") == "DeclRefExpr" and _is_ptr(bs):
+                # &p[i] with p a pointer variable: element i of the array p points into; no memory access
+                b = self.e_val(bs, env)
+                i = self.e_val(idx, env)
+                return Val("(addr_%s_at %s %s)" % (self.gtype(bs), b.t, i.t), s_and(b.safe, i.safe), b.dep or i.dep)
             v, st, fields, safe = self.own_fields(_strip(base), env)
             i = self.e_val(idx, env)
             return Val("(addr_%s_%s_at %s %s)" % (st, "_".join(fields), v["g"], i.t), s_and(safe, i.safe), i.dep)
@@ -539,7 +664,7 @@ class GT:
             if any(h not in HAVOC_KEEP for h in holders):
                 o = self.opaque_val(n)
                 return Val(o.t, SAFE_NN % v["g"] if self.nullable(cur) else None, True)
-        safe = SAFE_NN % v["g"] if self.nullable(cur) else None
+        safe = SAFE_NN % v["g"] if (self.nullable(cur) and not v.get("nonnull")) else None
         # links after the first one that go through pointers stored in fields
         for i in range(1, len(chain)):
             if not chain[i][2]:
@@ -589,6 +714,18 @@ class GT:
                 return Val("(%s %s %s)" % (f, x.t, y.t), safe, x.dep or y.dep)
             if op in ("==", "!=") and (_is_ptr(a) or _is_ptr(b)):
                 cgm = self.cg
+                other = _strip_casts(b if cgm._is_null(a) else a) if (cgm._is_null(a) or cgm._is_null(b)) else None
+                if other is not None and other.get("kind") == "CallExpr" and _callee(other) == "memchr" and PAYLOAD_PTRS:
+                    # memchr(p, c, n) ==/!= NULL with p a payload pointer: reads the bytes [p, p + n)
+                    pa, ca, na = other["inner"][1:4]
+                    p0 = _strip_casts(pa)
+                    if not self.is_pptr(p0) or not self.e_val_pp(p0, env):
+                        self.bad(n, "memchr over something that is not a payload pointer")
+                    pv, cv2, nv = self.e_val(p0, env), self.e_val(ca, env), self.e_val(na, env)
+                    ev = self.emu_var(n, env)
+                    safe = s_and(s_and(s_and(pv.safe, cv2.safe), nv.safe), SAFE_INB % ("(rd_ok_range sx st %s %s %s)" % (ev, pv.t, nv.t)))
+                    r = "(negb (mem_has sx st %s %s %s %s))" % (ev, pv.t, cv2.t, nv.t)
+                    return Val(r if op == "==" else "(negb %s)" % r, safe, True)
                 if cgm._is_null(a) or cgm._is_null(b):
                     p = self.e_val(b if cgm._is_null(a) else a, env)
                     r = "(is_null %s)" % p.t
@@ -684,21 +821,26 @@ class GT:
         return name, [a.decode("latin1").strip() for a in args]
 
     def macro_prim(self, s, name, args, env):
-        """DL_PREPEND(p->f, q) -> (DL_PREPEND_<struct of p>_<f> p q)"""
-        if len(args) != 2:
+        """DL_PREPEND(p->f, q) -> (DL_PREPEND_<struct of p>_<f> p q); further arguments must be plain identifiers
+        (field names of the list links) and become part of the name: DL_APPEND2(p->f, q, prev, next) ->
+        (DL_APPEND2_<struct>_<f>_<prev>_<next> p q)"""
+        if len(args) < 2:
             self.bad(s, "macro %s with %d arguments" % (name, len(args)))
         m = re.match(r"^(\w+)\s*->\s*(\w+)$", args[0])
-        if not m or not re.match(r"^\w+$", args[1]):
-            self.bad(s, "macro %s arguments are not of the form p->f, q" % name)
+        if not m or not all(re.match(r"^\w+$", a) for a in args[1:]):
+            self.bad(s, "macro %s arguments are not of the form p->f, q[, field...]" % name)
         out = []
         for v in (m.group(1), args[1]):
             if v not in env or not env[v]["init"]:
                 self.bad(s, "macro argument %s is not a local/parameter" % v)
             out.append(env[v])
+        for a in args[2:]:
+            if a in env:
+                self.bad(s, "macro argument %s should be a field name, it is a variable" % a)
         st = _struct_of(out[0]["cty"])
         if st is None:
             self.bad(s, "macro head is not a field of a struct pointer")
-        return "(%s_%s_%s %s %s)" % (name, st, m.group(2), out[0]["g"], out[1]["g"])
+        return "(%s %s %s)" % ("_".join([name, st, m.group(2)] + list(args[2:])), out[0]["g"], out[1]["g"])
 
     def gname(self, cname):
         return cname + "_" if cname in GALLINA_KEYWORDS else cname
@@ -715,7 +857,8 @@ class GT:
                 terms.append(a.t)
         body = k(terms)
         for nm, a in reversed(pre):
-            body = self.needed(a.safe, "bind (eval %s) (fun %s =>\n%s)" % (self.fn_of_state(a.t), nm, body))
+            inner = "bind (eval %s) (fun %s =>\n%s)" % (self.fn_of_state(a.t), nm, body)
+            body = self.needed(a.safe, inner) if a.safe is not None else "(%s)" % inner
         return body
 
     def call_action(self, n, env):
@@ -723,8 +866,8 @@ class GT:
         if HAVOC and not (name in PRIM_ACTION or self.kinds.get(name) == "action"):
             if self.ity(n) is None:
                 self.bad(n, "untranslated callee %s does not return an integer status" % name)
-            self.opaque_args(n)
-            return "(opq_action %d%%nat)" % self.site()
+            osafe = self.opaque_args(n, env)
+            return self.needed(osafe, "(opq_action %d%%nat)" % self.site())
         if not (name in PRIM_ACTION or self.kinds.get(name) == "action"):
             self.bad(n, "call of %s: not an int-status function known to the translator" % name)
         if name in getattr(self, "local_fns", ()):
@@ -856,6 +999,11 @@ class GT:
                 self.bad(s, "return with/without value does not fit the function")
             if kind == "action":
                 c = self.ret_const(r)
+                if c == 0 and getattr(self, "outcell", None) is not None:
+                    cell = env[self.outcell]
+                    if not cell["init"]:
+                        self.bad(s, "return 0 before the out parameter %s is written" % self.outcell)
+                    return "ret %s" % cell["g"]
                 if c == 0:
                     return "ret tt"
                 if c == -1:
@@ -885,6 +1033,19 @@ class GT:
                 decls.append((name, g, _qt(v), inits[0] if inits else None))
             # translate in order; the continuation is built inside out
             return self.decl_chain(decls, rest, env, kind)
+        if k == "CompoundAssignOperator" and s.get("opcode") == "+=" and self.is_pptr(_strip(s["inner"][0])):
+            tgt, rhs = s["inner"]
+            t = _strip(tgt)
+            if t.get("kind") != "DeclRefExpr" or t["referencedDecl"]["kind"] != "VarDecl" or t["referencedDecl"]["name"] not in env:
+                self.bad(s, "+= on a payload pointer that is not a local")
+            old = self.var(t, env)
+            if not old.get("pp"):
+                self.bad(s, "+= on a pointer that does not point into the payload")
+            r = self.e_val(rhs, env)
+            if self.ity(rhs) is None:
+                self.bad(s, "payload pointer += non-integer")
+            nv = "(Z.add %s (Z.mul (%d) %s))" % (old["g"], self.pointee_size(t), r.t)
+            return self.needed(r.safe, "bind (eval %s) (fun %s =>\n%s)" % (self.fn_of_state(nv), old["g"], self.stmts(rest, env, kind)))
         if k in ("BinaryOperator", "CompoundAssignOperator") and s.get("opcode") in ("=", "|="):
             tgt, rhs = s["inner"]
             t = _strip(tgt) if tgt.get("kind") == "ParenExpr" else tgt
@@ -950,6 +1111,14 @@ class GT:
                     store, self.fn_of_state(i.t), self.fn_of_state(v.t), rest_t))
             if t.get("kind") == "UnaryOperator" and t.get("opcode") == "*" and s["opcode"] == "=":
                 pn = t["inner"][0]
+                pv = _strip(pn)
+                if pv.get("kind") == "DeclRefExpr" and env.get(pv["referencedDecl"]["name"], {}).get("outcell"):
+                    name = pv["referencedDecl"]["name"]
+                    v = self.e_val(rhs, env)
+                    env2 = dict(env)
+                    env2[name] = dict(env[name], init=True)
+                    return self.needed(v.safe, "bind (eval %s) (fun %s =>\n%s)" % (
+                        self.fn_of_state(v.t), env[name]["g"], self.stmts(rest, env2, kind)))
                 p_ = self.e_val(pn, env)
                 if not _is_ptr(pn) or p_.dep:
                     self.bad(s, "store through something that is not a pointer variable")
@@ -989,9 +1158,34 @@ class GT:
                 args = [self.e_val(a, env) for a in s["inner"][1:]]
                 call = self.bind_args(args, lambda ts: "(%s %s)" % (name, " ".join(ts)) if ts else name)
                 return "bind_ %s\n(%s)" % (call, self.stmts(rest, env, kind))
+            if name == "memcpy" and PAYLOAD_PTRS:
+                # memcpy(&local, p, sizeof local) with p a payload pointer: a little-endian read of the bytes [p, p + n)
+                d, src, cnt = s["inner"][1:4]
+                d0 = _strip_casts(d)
+                tv = _strip(d0["inner"][0]) if d0.get("kind") == "UnaryOperator" and d0.get("opcode") == "&" else None
+                if tv is None or tv.get("kind") != "DeclRefExpr" or tv["referencedDecl"]["kind"] != "VarDecl" or self.ity(tv) is None \
+                        or tv["referencedDecl"]["name"] not in env:
+                    self.bad(s, "memcpy destination is not &local of an integer type")
+                p0 = _strip_casts(src)
+                if not self.is_pptr(p0) or not self.e_val_pp(p0, env):
+                    self.bad(s, "memcpy source is not a payload pointer")
+                pv = self.e_val(p0, env)
+                nv = self.e_val(cnt, env)
+                ty = self.ity(tv)
+                nbytes = int(re.sub(r"\D", "", ty)) // 8
+                mlen = re.fullmatch(r"\(cast_u?int\d+ \((\d+)\)\)|\((\d+)\)", nv.t)
+                if nv.dep or nv.safe is not None or mlen is None or int(mlen.group(1) or mlen.group(2)) != nbytes:
+                    self.bad(s, "memcpy length is not the constant size of the destination")
+                nm = tv["referencedDecl"]["name"]
+                ev = self.emu_var(s, env)
+                env2 = dict(env)
+                env2[nm] = dict(env[nm], init=True)
+                safe = s_and(pv.safe, SAFE_INB % ("(rd_ok_bytes sx st %s %s (%d))" % (ev, pv.t, nbytes)))
+                return self.needed(safe, "bind (eval %s) (fun %s =>\n%s)" % (
+                    self.fn_of_state("(rd_bytes_%s sx st %s %s)" % (ty, ev, pv.t)), env[nm]["g"], self.stmts(rest, env2, kind)))
             if HAVOC and _qt(s) == "void" and self.kinds.get(name) is None:
-                self.opaque_args(s)
-                return "bind_ (opq_set %d%%nat)\n(%s)" % (self.site(), self.stmts(rest, env, kind))
+                osafe = self.opaque_args(s, env)
+                return self.needed(osafe, "bind_ (opq_set %d%%nat)\n(%s)" % (self.site(), self.stmts(rest, env, kind)))
             self.bad(s, "call statement of %s (result ignored / not a logging call)" % name)
         if k == "DoStmt":
             name, args = self.macro_of(s)
@@ -1041,7 +1235,106 @@ class GT:
             return self.needed(c.safe, "ite %s\n(%s)\n(%s)" % (self.fn_of_state(c.t), tb, eb))
         if k == "SwitchStmt":
             return self.switch(s, rest, env, kind)
+        if k == "ForStmt":
+            return self.loop(s, rest, env, kind)
         self.bad(s, "statement")
+
+    # ------------------------------------------------------------ the loop form
+    def loop(self, s, rest, env, kind):
+        name, args = self.macro_of(s)
+        if name not in LOOP_MACROS or len(args) != 3:
+            self.bad(s, "loop that is not one of %s(p->head, el, next)" % sorted(LOOP_MACROS))
+        m = re.match(r"^(\w+)\s*->\s*(\w+)$", args[0])
+        if not m or not re.match(r"^\w+$", args[1]) or not re.match(r"^\w+$", args[2]):
+            self.bad(s, "loop arguments are not of the form p->head, el, next")
+        pv, headf, el, nxt = m.group(1), m.group(2), args[1], args[2]
+        if pv not in env or not env[pv]["init"] or el not in env:
+            self.bad(s, "loop over something that is not a field of a local pointer / element variable not declared")
+        st = _struct_of(env[pv]["cty"])
+        if st is None:
+            self.bad(s, "loop head is not a field of a struct pointer")
+        body = s["inner"][-1]
+        assigned = []
+        self.loop_scan(body, env, assigned, el)
+        if not assigned:
+            self.bad(s, "loop body assigns no local")
+        for a in assigned:
+            if not env[a]["init"]:
+                self.bad(s, "loop accumulates into %s which is not initialised" % a)
+        order = [n for n in env if n in assigned]
+        tup = "(%s)" % ", ".join(env[n]["g"] for n in order) if len(order) > 1 else env[order[0]]["g"]
+        pat = "'" + tup if len(order) > 1 else tup
+        env_b = dict(env)
+        env_b[el] = dict(env[el], init=True, nonnull=True)
+        bt = self.pstmts([body], env_b, tup, pat)
+        lst = "(list_%s_%s_%s sx st %s)" % (st, headf, nxt, env[pv]["g"])
+        env2 = dict(env)
+        env2[el] = dict(env[el], init=False)      # NULL after the traversal: not to be used
+        safe = SAFE_NN % env[pv]["g"] if PTR.get(_norm_ptr(env[pv]["cty"]), (None, True))[1] else None
+        return self.needed(safe, "bind (eval (fun sx st => fold_left (fun %s %s =>\n%s)\n%s %s)) (fun %s =>\n%s)" % (
+            pat, env[el]["g"], bt, lst, tup, pat, self.stmts(rest, env2, kind)))
+
+    def loop_scan(self, n, env, assigned, el):
+        """what a loop body may contain; collects the locals it assigns"""
+        k = n.get("kind")
+        if k in ("CompoundStmt", "IfStmt"):
+            parts = n.get("inner", [])
+            start = 1 if k == "IfStmt" else 0
+            if k == "IfStmt":
+                self.pure_tree(parts[0])
+            for c in parts[start:]:
+                self.loop_scan(c, env, assigned, el)
+            return
+        if k == "NullStmt":
+            return
+        tgt = None
+        if k in ("BinaryOperator",) and n.get("opcode") == "=":
+            tgt = _strip(n["inner"][0])
+            self.pure_tree(n["inner"][1])
+        elif k == "UnaryOperator" and n.get("opcode") in ("++", "--"):
+            tgt = _strip(n["inner"][0])
+        if tgt is None or tgt.get("kind") != "DeclRefExpr" or tgt["referencedDecl"]["kind"] != "VarDecl" or \
+                tgt["referencedDecl"]["name"] not in env or tgt["referencedDecl"]["name"] == el:
+            self.bad(n, "statement in a loop body (only assignments to locals, ++/-- and if are allowed)")
+        nm = tgt["referencedDecl"]["name"]
+        if nm not in assigned:
+            assigned.append(nm)
+
+    def pstmts(self, ss, env, tup, pat):
+        """a side-effect-free block as a Gallina term of the type of the tuple of accumulators"""
+        if not ss:
+            return tup
+        s, rest = ss[0], ss[1:]
+        k = s["kind"]
+        if k == "CompoundStmt":
+            return self.pstmts(list(s.get("inner", [])) + rest, env, tup, pat)
+        if k == "NullStmt":
+            return self.pstmts(rest, env, tup, pat)
+        if k == "BinaryOperator" and s.get("opcode") == "=":
+            t = _strip(s["inner"][0])
+            v = self.e_val(s["inner"][1], env)
+            if v.safe is not None:
+                self.bad(s, "dereference of a possibly NULL pointer inside a loop body")
+            return "let %s := %s in\n%s" % (env[t["referencedDecl"]["name"]]["g"], v.t, self.pstmts(rest, env, tup, pat))
+        if k == "UnaryOperator" and s.get("opcode") in ("++", "--"):
+            t = _strip(s["inner"][0])
+            g = env[t["referencedDecl"]["name"]]["g"]
+            ty = self.ity(t)
+            if ty is None:
+                self.bad(s, "++/-- on a non-integer")
+            val = "(%s %s 1)" % ("Z.add" if s["opcode"] == "++" else "Z.sub", g)
+            if ty.startswith("u"):
+                val = "(cast_%s %s)" % (ty, val)
+            return "let %s := %s in\n%s" % (g, val, self.pstmts(rest, env, tup, pat))
+        if k == "IfStmt":
+            parts = list(s["inner"])
+            c = self.e_bool(parts[0], env)
+            if c.safe is not None:
+                self.bad(s, "dereference of a possibly NULL pointer inside a loop body")
+            a = self.pstmts([parts[1]], env, tup, pat)
+            b = self.pstmts([parts[2]] if len(parts) > 2 else [], env, tup, pat)
+            return "let %s := (if %s then\n(%s)\nelse\n(%s)) in\n%s" % (pat, c.t, a, b, self.pstmts(rest, env, tup, pat))
+        self.bad(s, "statement in a loop body")
 
     def var_by_name(self, node, name, env):
         if name not in env or not env[name]["init"]:
@@ -1090,7 +1383,11 @@ class GT:
             env2[name] = {"g": g, "cty": cty, "init": True}
             return "bind (status (%s)) (fun %s =>\n%s)" % (self.call_action(rc, env), g, self.decl_chain(more, rest, env2, kind))
         v = self.e_val(init, env)
-        env2[name] = {"g": g, "cty": cty, "init": True}
+        if v.t == "None":
+            v = Val("(None : %s)" % self.gtype({"type": {"qualType": cty}, "kind": "VarDecl"}), None, False)
+        env2[name] = {"g": g, "cty": cty, "init": True, "pp": v.pp}
+        if PAYLOAD_PTRS and _norm_ptr(cty) in PAYLOAD_PTRS and not v.pp and not (HAVOC and v.t.startswith("(opq_ptr")) and v.t != "None" and not v.t.startswith("(None"):
+            self.bad(decls[0][3], "pointer of a payload pointer type initialised from something else")
         return self.needed(v.safe, "bind (eval %s) (fun %s =>\n%s)" % (self.fn_of_state(v.t), g, self.decl_chain(more, rest, env2, kind)))
 
     def setter(self, t, env):
@@ -1233,8 +1530,17 @@ class GT:
         rett = d["type"]["qualType"].split("(")[0].strip()
         env = {}
         plist = []
+        self.outcell = OUT_FUNCS.get(fn) if kind == "action" else None
+        if self.outcell is not None and self.outcell not in [p["name"] for p in params]:
+            raise self.cg.Unsupported("UNSUPPORTED %s function %s: no out parameter %s" % (self.relpath, fn, self.outcell))
         for p in params:
             g = self.gname(p["name"])
+            if p["name"] == self.outcell:
+                pt = dict(p, type={"qualType": re.sub(r"\*\s*$", "", _qt(p)).strip()})
+                if not _qt(p).strip().endswith("*") or self.ity(pt) is None:
+                    raise self.cg.Unsupported("UNSUPPORTED %s function %s: out parameter %s is not a pointer to an integer" % (self.relpath, fn, self.outcell))
+                env[p["name"]] = {"g": g + "_v", "cty": _qt(p), "init": False, "outcell": True}
+                continue
             env[p["name"]] = {"g": g, "cty": _qt(p), "init": True}
             pointee = _norm_struct(re.sub(r"\*\s*$", "", _qt(p)))
             if fn in BYREF_READ and _qt(p).strip().endswith("*") and pointee in STRUCTS:
@@ -1249,7 +1555,8 @@ class GT:
             if rett != "int":
                 raise self.cg.Unsupported("UNSUPPORTED %s function %s: int-status function returns %s" % (self.relpath, fn, rett))
             term = self.stmts([body], env, kind)
-            return head + "Definition %s %s : M unit :=\n%s.\n" % (getattr(self, "prefix", "") + fn, " ".join(plist), indent(term))
+            return head + "Definition %s %s : M %s :=\n%s.\n" % (getattr(self, "prefix", "") + fn, " ".join(plist),
+                                                                "Z" if self.outcell is not None else "unit", indent(term))
         if kind == "proc":
             if rett != "void":
                 raise self.cg.Unsupported("UNSUPPORTED %s function %s: procedure returns %s" % (self.relpath, fn, rett))
@@ -1319,8 +1626,9 @@ def translate_files(work, units, extra_incs=(), prefixes=None):
         # only the functions of this file and of the files before it can be called by name
         for fn, kind in fns:
             defs.append(t.function(fn, kind))
-        if t.consts:
-            vals = cg.probe_consts(tu, incs, {"c_" + n: n for n in sorted(t.consts)}, work)
+        extra = {k2: EXTRA_CONSTS[k2] for k2 in sorted(getattr(t, "consts_extra", set()))}
+        if t.consts or extra:
+            vals = cg.probe_consts(tu, incs, dict({"c_" + n: n for n in sorted(t.consts)}, **extra), work)
             for k2, v in vals.items():
                 if k2 in consts and consts[k2] != v:
                     raise cg.Unsupported("UNSUPPORTED constant %s has two values (%s, %s)" % (k2, consts[k2], v))
